@@ -19,6 +19,7 @@ import runtrace
 import vlib
 
 PID = "C24"
+CONFIRM_BY_REPLAY = True   # a new deviation is reported only if replaying its stored case repeats it
 META = {
     "cat": "model_checking",
     "text": "Every run of generated suppression-heavy projects (command line id / id:file / id:file:line / glob forms, inline comments in sources "
